@@ -1,13 +1,19 @@
 """C11 — truncation and slicing select exactly the requested range."""
 from tools.harness.core import Property
+from tools.props.weaver_units import WeaverUnit
 from tools.props.proc_units import TruncateUnit
+
+
+class WC11(WeaverUnit):
+    name = "weaver_c11"
 
 
 class C11(Property):
     id = "C11"
+    gen_targets = ["Funfit"]
 
     def units(self, tier):
-        return [TruncateUnit()]
+        return [TruncateUnit(), WC11(("C11",), ops=['truncate_by_value','truncate_by_value','truncate_by_index','shift_x','scale_x','recreate','append'], max_len=6, queries=True)]
 
 
 PROPERTY = C11()
